@@ -192,6 +192,23 @@ impl Expression {
                 // Todo: Modifiers on object type template parameters
                 let (array_ty_nomod, modifer) = module.type_registry.extract_modifier(array_ty.0);
                 let array_tyl_nomod = module.type_registry.get_type_layer(array_ty_nomod);
+                // Elements of arrays / vectors / matrices have the value category of the indexed expression
+                if matches!(
+                    array_tyl_nomod,
+                    TypeLayer::Array(..) | TypeLayer::Vector(..) | TypeLayer::Matrix(..)
+                ) && array_ty.1 == ValueType::Rvalue
+                {
+                    let ty = match array_tyl_nomod {
+                        TypeLayer::Array(element, _) => element,
+                        TypeLayer::Vector(st, _) => module.type_registry.combine_modifier(st, modifer),
+                        TypeLayer::Matrix(st, _, y) => {
+                            let ty = module.type_registry.register_type(TypeLayer::Vector(st, y));
+                            module.type_registry.combine_modifier(ty, modifer)
+                        }
+                        _ => unreachable!(),
+                    };
+                    return Ok(ty.to_rvalue());
+                }
                 let ty = match array_tyl_nomod {
                     TypeLayer::Array(element, _) => element,
                     TypeLayer::Vector(st, _) => module.type_registry.combine_modifier(st, modifer),
